@@ -736,3 +736,11 @@ def h_import_check(c):
     r = subprocess.run([sys.executable, "-c", "import lcm.entry_point, lcm.simulate, lcm.ndimage; print('ok')"],
                        capture_output=True, text=True, env=env, cwd="/tmp")
     return {"ok": r.returncode == 0 and "ok" in r.stdout, "stderr": r.stderr[-300:]}
+
+
+# ---- C08 ---------------------------------------------------------------------------------
+def h_choice_segments(c):
+    from lcm.simulate import create_choice_segments
+    mask = jnp.asarray(np.array(c["mask"]["data"], dtype=bool))
+    seg = create_choice_segments(mask, n_sparse_states=c["n_agents"])
+    return {"segment_ids": [int(x) for x in np.asarray(seg["segment_ids"])], "num_segments": int(seg["num_segments"])}
